@@ -36,6 +36,7 @@ const S_ITE: u8 = 6;
 const S_CHILD: u8 = 7;
 const Q: u8 = 8;
 const S_COMPILE: u8 = 9;
+const S_CHAIN: u8 = 10;
 
 // query kinds (op.a[0])
 const Q_WMC_REAL: i64 = 0;
@@ -160,7 +161,7 @@ fn generic_query<'a, P: DDNNFPtr<'a>>(p: &P, q: i64, arg: i64, w: &Weights, n: u
         Q_WMC_FF_SMALL => vec![p.unsmoothed_wmc(&w.small).value() as u64],
         Q_WMC_FF_LARGE => vec![p.unsmoothed_wmc(&w.large).value() as u64],
         Q_EVAL => {
-            let a: Vec<bool> = (0..n).map(|v| (arg >> v) & 1 == 1).collect();
+            let a: Vec<bool> = (0..n).map(|v| bit(arg, v)).collect();
             vec![p.evaluate(&a) as u64]
         }
         Q_WMC_RATIONAL => vec![crate::rng::str_hash(&format!("{}", p.unsmoothed_wmc(&w.rational)))],
@@ -186,18 +187,27 @@ fn generic_query<'a, P: DDNNFPtr<'a>>(p: &P, q: i64, arg: i64, w: &Weights, n: u
 fn model_ans(m: &PartialModel, n: usize) -> u64 {
     let mut x = 0u64;
     for v in 0..n {
-        x = x * 3 + match m.get(VarLabel::new(v as u64)) {
+        x = x.wrapping_mul(1_000_003).wrapping_add(match m.get(VarLabel::new(v as u64)) {
             None => 0,
             Some(false) => 1,
             Some(true) => 2,
-        };
+        });
     }
     x
 }
 
+/// bit `v` of an argument word (beyond 24 bits the word is stretched by hashing, so that any number of variables is covered)
+fn bit(arg: i64, v: usize) -> bool {
+    if v < 24 {
+        (arg >> v) & 1 == 1
+    } else {
+        mix(arg as u64, v as u64) & 1 == 1
+    }
+}
+
 fn var_subset(mask: i64, n: usize) -> Vec<VarLabel> {
     // at most 6 query/decision variables: the optimisation queries branch over all their assignments
-    (0..n).filter(|v| (mask >> v) & 1 == 1).take(6).map(|v| VarLabel::new(v as u64)).collect()
+    (0..n).filter(|v| bit(mask, *v)).take(6).map(|v| VarLabel::new(v as u64)).collect()
 }
 
 /// BDD-only queries. Diagram-valued answers are returned as (signature, truth table).
@@ -242,7 +252,7 @@ fn bdd_query(b: &'static RobddBuilder<'static, AllIteTable<BPtr>>, p: BPtr, q: i
             (vec![wb::sig(r, &mut BTreeMap::new())], Some(r))
         }
         Q_CONDITION_MODEL => {
-            let asg: Vec<Option<bool>> = (0..n).map(|v| if (a1 >> v) & 1 == 1 { Some((a2 >> v) & 1 == 1) } else { None }).collect();
+            let asg: Vec<Option<bool>> = (0..n).map(|v| if bit(a1, v) { Some(bit(a2, v)) } else { None }).collect();
             let r = b.condition_model(p, &PartialModel::from_assignments(&asg));
             (vec![wb::sig(r, &mut BTreeMap::new())], Some(r))
         }
@@ -323,6 +333,8 @@ enum Setup {
     Smooth(usize, usize),
     Cond(usize, usize, bool),
     CondModel(usize, i64, i64),
+    /// OR over i of (x_{p+2i} & x_{p+2i+1}) along `len` consecutive positions of a label list: a deep diagram
+    Chain(usize, usize),
 }
 
 fn exec_setup(b: &'static RobddBuilder<'static, AllIteTable<BPtr>>, st: &Setup, pool: &[BPtr], n: usize) -> BPtr {
@@ -345,8 +357,20 @@ fn exec_setup(b: &'static RobddBuilder<'static, AllIteTable<BPtr>>, st: &Setup, 
         }
         Setup::Smooth(i, k) => b.smooth(pool[i], k),
         Setup::Cond(i, v, val) => b.condition(pool[i], VarLabel::new(v as u64), val),
+        Setup::Chain(start, len) => {
+            let mut acc = b.false_ptr();
+            let mut i = start;
+            while i + 1 < (start + len).min(n) {
+                // neighbours in the builder's order (pairs that are far apart in the order would blow the diagram up)
+                let (va, vb) = (b.order().var_at_level(i), b.order().var_at_level(i + 1));
+                let t = b.and(b.var(va, true), b.var(vb, true));
+                acc = b.or(acc, t);
+                i += 2;
+            }
+            acc
+        }
         Setup::CondModel(i, a1, a2) => {
-            let asg: Vec<Option<bool>> = (0..n).map(|v| if (a1 >> v) & 1 == 1 { Some((a2 >> v) & 1 == 1) } else { None }).collect();
+            let asg: Vec<Option<bool>> = (0..n).map(|v| if bit(a1, v) { Some(bit(a2, v)) } else { None }).collect();
             b.condition_model(pool[i], &PartialModel::from_assignments(&asg))
         }
     }
@@ -368,7 +392,7 @@ fn build_fresh(b: &'static RobddBuilder<'static, AllIteTable<BPtr>>, setup: &[Se
 }
 
 fn run_bdd(plan: &Plan, ctx: &mut Ctx) -> R {
-    let n = plan.get("nvars").clamp(1, 24) as usize;
+    let n = plan.get("nvars").clamp(1, 256) as usize;
     let small = n <= tt::MAXV;
     let perm: Vec<usize> = if small {
         perm_from_index(n, plan.get("order_idx") as u64)
@@ -387,6 +411,8 @@ fn run_bdd(plan: &Plan, ctx: &mut Ctx) -> R {
     let mut setup: Vec<Setup> = Vec::new();
     // reduced canonical diagram (not derived from a smoothed one)?
     let mut plain: Vec<bool> = Vec::new();
+    // more than 40 nodes (only tracked beyond 7 variables)
+    let mut deep: Vec<bool> = Vec::new();
     let mut nq = 0u64;
     let mut kinds_seen = 0u32;
     let mut smoothed_queries = 0u64;
@@ -397,19 +423,22 @@ fn run_bdd(plan: &Plan, ctx: &mut Ctx) -> R {
         ctx.ops += 1;
         ctx.cur_prop = "C10";
         let np = pool.len();
-        let mut kind = if np == 0 && op.k != S_VAR { S_VAR } else { op.k };
+        let mut kind = if np == 0 && op.k != S_VAR && op.k != S_CHAIN { S_VAR } else { op.k };
         // and/or/xor/ite are only issued on reduced diagrams (a smoothed diagram is not one)
         if matches!(kind, S_AND | S_OR | S_XOR | S_ITE) {
             let nops = if kind == S_ITE { 3 } else { 2 };
-            if (0..nops).any(|j| !plain[resolve(op.a[j], np)]) {
+            // ... and, beyond 7 variables, only on small ones: rsdd's ite does not memoise reductions, so an
+            // apply whose sub-results collapse (f & !f, f xor f, ...) enumerates paths: exponential on deep diagrams
+            if (0..nops).any(|j| !plain[resolve(op.a[j], np)] || deep[resolve(op.a[j], np)]) {
                 kind = S_CHILD;
             }
         }
         match kind {
-            S_VAR | S_NEG | S_AND | S_OR | S_XOR | S_ITE | S_CHILD => {
+            S_VAR | S_NEG | S_AND | S_OR | S_XOR | S_ITE | S_CHILD | S_CHAIN => {
                 let g = |j: usize| resolve(op.a[j], np);
                 let (st, pl) = match kind {
                     S_VAR => (Setup::Var(op.a[0].unsigned_abs() as usize % n, op.a[3] & 1 == 1), true),
+                    S_CHAIN => (Setup::Chain(op.a[0].unsigned_abs() as usize % n, 2 + op.a[1].unsigned_abs() as usize % n), true),
                     S_NEG => (Setup::Neg(g(0)), plain[g(0)]),
                     S_AND => (Setup::And(g(0), g(1)), true),
                     S_OR => (Setup::Or(g(0), g(1)), true),
@@ -424,6 +453,7 @@ fn run_bdd(plan: &Plan, ctx: &mut Ctx) -> R {
                 tts.push(t);
                 setup.push(st);
                 plain.push(pl);
+                deep.push(!small && p.count_nodes() > 40);
                 ctx.ev(100 + kind as u64, &[wb::addr(p) as u64, p.is_neg() as u64, tt::lo(t), tt::hi(t)]);
                 ctx.note(|| format!("[{i}] c{} h{} = setup#{kind} -> {}{:#x} tt={}", op.c, pool.len() - 1, if p.is_neg() { "~" } else { "" }, wb::addr(p), tt::show(t)));
             }
@@ -436,6 +466,10 @@ fn run_bdd(plan: &Plan, ctx: &mut Ctx) -> R {
                         q = Q_WMC_REAL;
                     }
                     smoothed_queries += 1;
+                } else if deep[h] && matches!(q, Q_CONDITION | Q_CONDITION_MODEL) {
+                    // conditioning does not memoise reductions either: on a deep diagram whose conditioned form
+                    // collapses it enumerates paths (cost control only)
+                    q = Q_COUNT_NODES;
                 }
                 let (a1, a2) = (op.a[2], op.a[3]);
                 let p = pool[h];
@@ -468,6 +502,7 @@ fn run_bdd(plan: &Plan, ctx: &mut Ctx) -> R {
                     tts.push(tt_of(r));
                     setup.push(st);
                     plain.push(false);
+                    deep.push(!small);
                 }
                 if let (Some(d), Some(fd)) = (diag, fdiag) {
                     if small {
@@ -481,6 +516,7 @@ fn run_bdd(plan: &Plan, ctx: &mut Ctx) -> R {
                     tts.push(tt_of(d));
                     setup.push(if q == Q_CONDITION { Setup::Cond(h, a1.unsigned_abs() as usize % n, a2 & 1 == 1) } else { Setup::CondModel(h, a1, a2) });
                     plain.push(true);
+                    deep.push(!small && d.count_nodes() > 40);
                 }
             }
             _ => {}
@@ -742,7 +778,9 @@ impl World for QueryWorld {
         let variant = c.weighted(&[5, 3, 2]) as i64; // 0 bdd, 1 sdd, 2 top-down
         cfg.insert("variant".into(), variant);
         // the BDD variant goes up to 24 variables in one run out of five (copies are then made by replaying the history)
-        let n = if variant == 2 { 1 + c.below(6) } else if variant == 0 && c.below(5) == 0 { 8 + c.below(17) } else { 1 + c.below(7) };
+        let wide_bdd = variant == 0 && c.below(5) == 0;
+        let very_wide = wide_bdd && c.below(8) == 0;
+        let n = if variant == 2 { 1 + c.below(6) } else if very_wide { 65 + c.below(180) } else if wide_bdd { 8 + c.below(17) } else { 1 + c.below(7) };
         cfg.insert("nvars".into(), n as i64);
         cfg.insert("order_idx".into(), c.below(5040) as i64);
         cfg.insert("vt_shape".into(), c.below(6) as i64);
@@ -766,7 +804,7 @@ impl World for QueryWorld {
         let ncallers = 1 + c.below(4);
         let setup = 3 + o.below(14);
         for _ in 0..setup {
-            let k = *o.pick(&[S_VAR, S_VAR, S_NEG, S_AND, S_AND, S_OR, S_OR, S_XOR, S_ITE, S_CHILD]);
+            let k = if wide_bdd && o.below(5) == 0 { S_CHAIN } else { *o.pick(&[S_VAR, S_VAR, S_NEG, S_AND, S_AND, S_OR, S_OR, S_XOR, S_ITE, S_CHILD]) };
             ops.push(Op { c: s.below(ncallers) as u8, k, a: [gen_operand(&mut o), gen_operand(&mut o), gen_operand(&mut o), o.below(2) as i64] });
         }
         // swarm: each query kind on or off per run
@@ -775,7 +813,7 @@ impl World for QueryWorld {
             *q = if c.below(3) == 0 { 0 } else { 1 + c.below(3) as u32 };
         }
         qw[Q_WMC_REAL as usize] = qw[Q_WMC_REAL as usize].max(1);
-        let len = 4 + o.below(if thorough { 70 } else { 40 });
+        let len = 4 + o.below(if very_wide { 16 } else if thorough { 70 } else { 40 });
         for _ in 0..len {
             let caller = s.below(ncallers) as u8;
             if o.below(8) == 0 {
